@@ -347,7 +347,18 @@ func shorthandCases(ecoName string, b base3) []shCase {
 		}
 	case "composer":
 		if b.pre != "" {
-			return nil
+			// a stability suffix on the base does not change which component the operator bumps ("~1.2-beta.1" is
+			// >=1.2-beta.1 <2.0.0 just as "~1.2"); probes are stable versions only (zone stable-only)
+			switch b.arity {
+			case 2:
+				add("~"+s, "composer-tilde-2-pre", "["+s+","+j3(x+1, 0, 0)+")", "stable-only", "must")
+			case 3:
+				add("~"+s, "composer-tilde-3-pre", "["+s+","+j3(x, y+1, 0)+")", "stable-only", "must")
+			}
+			if x > 0 {
+				add("^"+s, "composer-caret-pre", "["+s+","+j3(x+1, 0, 0)+")", "stable-only", "must")
+			}
+			return out
 		}
 		lo := j3(x, y, z)
 		switch {
@@ -522,6 +533,17 @@ func shorthandProbes(ecoName string, b base3, r *rand.Rand) []string {
 	}
 	if b.pre != "" {
 		out = append(out, j3(x, y, z)+b.pre, j3(x, y, z)+b.pre+".1", j3(x, y, z)+b.pre+"1")
+		// every proper prefix of the pre-release (identifier-wise) and its neighbours: a base whose pre-release is read
+		// short (a trailing identifier taken for a wildcard, a separator taken for the end) lets these older versions in
+		pre := b.pre
+		for {
+			i := strings.LastIndexAny(pre, ".-")
+			if i <= 0 {
+				break
+			}
+			pre = pre[:i]
+			out = append(out, j3(x, y, z)+pre, j3(x, y, z)+pre+".0", j3(x, y, z)+pre+".1", j3(x, y, z)+pre+".99", j3(x, y, z)+pre+".a")
+		}
 		switch ecoName {
 		case "npm", "cargo", "hex":
 			out = append(out, j3(x, y, z)+"-alpha.1", j3(x, y, z)+"-alpha.2", j3(x, y, z)+"-alpha.3", j3(x, y, z)+"-beta", j3(x, y, z)+"-rc.1", j3(x, y, z)+"-rc.2")
@@ -643,7 +665,9 @@ func runC05(c *core.Ctx, ck *Check) {
 				switch j.eco {
 				case "npm", "cargo", "hex":
 					b.arity = 3
-					b.pre = []string{"-alpha", "-alpha.2", "-rc.1", "-0", "-beta.1.x"}[r.IntN(5)]
+					b.pre = []string{"-alpha", "-alpha.2", "-rc.1", "-0", "-beta.1.x", "-rc.x", "-beta.X", "-alpha.2.x", "-x.1", "-1.x.2", "-rc.1.0"}[r.IntN(11)]
+				case "composer":
+					b.pre = []string{"-beta1", "-beta.1", "-RC1", "-rc.2", "-alpha", "-beta.10"}[r.IntN(6)]
 				case "gem":
 					b.pre = []string{".rc1", "-alpha", ".beta.2"}[r.IntN(3)]
 				case "pypi":
